@@ -420,7 +420,35 @@ def rule_best_bonus(ctx):
     rule_bonus_args(ctx)
 
 
+def rule_result_source(ctx):
+    """The substring verdict is the substring scanners' verdict: every value substring_match_impl returns is produced by
+    one of them (or by the exact matcher for equal lengths, or is the trivial None / Some(0)).  A short cut through
+    another relation's matcher (prefix, postfix, fuzzy) reports that relation's occurrence and score: for prefix_match
+    that is an occurrence behind leading whitespace, which need not be the one with the highest first-character bonus."""
+    from cfg import decision_paths
+    fn = get_fn(ctx.facts, M, "Matcher::substring_match_impl")
+    allowed = ("::substring_match_1_ascii", "::substring_match_ascii", "::substring_match_1_non_ascii", "::substring_match_non_ascii",
+               "::substring_match_ascii_with_prefilter", "::exact_match_impl", "::prefilter_non_ascii", "::prefilter_ascii")
+    paths = decision_paths(fn)
+    ctx.floor("decision paths of substring_match_impl", len(paths), 6)
+    bad = {}
+    for conds, res in paths:
+        if res is None:
+            continue
+        for x in walk(res):
+            if x[0] == "call" and ("Matcher>::" in str(x[1]) or str(x[1]).startswith("Matcher::")) and not any(str(x[1]).endswith(a) or (a + "::<") in str(x[1]) for a in allowed):
+                bad[str(x[1])] = x
+    if bad:
+        for nm in sorted(bad):
+            ctx.violation("Matcher::substring_match_impl|result-source|%s" % nm.rsplit("::", 1)[-1], site(fn, 0),
+                          "substring_match_impl returns a value produced by %s: the occurrence and score of another relation are reported as the substring result "
+                          "(with match_paths, \" src/src\" / \"src\": the occurrence behind the blank scores 80, the one behind `/` 84)" % nm)
+    else:
+        ctx.ok(site(fn, 0), "every returned value comes from the substring scanners / the exact matcher / a trivial verdict (%d paths)" % len(paths))
+
+
 def rules(ctx):
+    ctx.run_rule("C05.result-source", rule_result_source)
     ctx.run_rule("C05.window", rule_window)
     ctx.run_rule("C05.best-bonus", rule_best_bonus)
     ctx.run_rule("C05.prefilter-arms", rule_prefilter_arms)
